@@ -267,6 +267,13 @@ def compare_document(res, xmlschema, schema, text, label, case, has_qname_values
     srcs = sources(text, scratch, has_qname_values, lxml_etree, ET, xmlschema)
     base = observe(xmlschema, schema, srcs['str'], 'iter_errors', opts)
     ref_valid, ref_errors, ref_first = base['valid'], base['errors'], base['first']
+    if not opts:
+        # a validation hook that names the mode already in use for every element changes nothing
+        hooked = [err_key(e, None) for e in schema.iter_errors(srcs['str'](), validation_hook=lambda elem, xsd_element: 'lax')]
+        res.count('validation_hook_transparency:compared')
+        if sorted(hooked, key=repr) != sorted(ref_errors, key=repr):
+            res.violation('validation-hook-naming-the-current-mode-changes-the-errors', dict(case, route='iter_errors+hook'),
+                          f'{label}: with the hook {hooked[:3]} without {ref_errors[:3]}')
     ref_data = None
     if ref_valid:
         ref_data = observe(xmlschema, schema, srcs['str'], 'decode_strict', opts).get('data')
